@@ -181,7 +181,8 @@ struct C16Redeliver : Monitor {
 			bool foreign = it != origs.end() && step_d.src.str() != it->second.src && !no_check_ip;
 			Pos after = pos_of(step_uid);
 			char b[400];
-			if (after != before) {
+			if (before.ofr > 15 || after.ofr > 15) w->probes["c16.over16_not_judged"]++;     // a downstream packet beyond 16 fragments is stuck anyway
+			else if (after != before) {
 				snprintf(b, sizeof b, "re-delivery of %s query (uid %d, %s, %s%s) changed the session's stream positions: in len/off/seq/frag %d/%d/%d/%d -> %d/%d/%d/%d, out len/off/seq/frag/queue %d/%d/%d/%d/%d -> %d/%d/%d/%d/%d",
 					 it != origs.end() && it->second.kind == 'p' ? "a ping" : "a data", step_uid, answered_at_recv ? "already answered" : "still pending", foreign ? "foreign source, " : "",
 					 in_cache_at_recv ? "in answer cache" : "not in answer cache",
